@@ -109,6 +109,7 @@ type Engine struct {
 	clockMax  T
 	clockBase *T
 	thr       *threadLog
+	jsonBlobs map[*Loc]IfaceV
 	dumpDir   string
 	dumped    int
 	dumpMax   int
